@@ -329,8 +329,11 @@ def _first_two(var, vals):
     return ["%s[0] == %d and %s[1] == %d" % (var, a, var, b) for a in vals for b in vals]
 
 
+_BOTH_D = "kinds[0] == 1 and kinds[1] == 1"
+
 HARNESSES = [
-    H(fire_order, shards=lambda tier: [(c,) for c in _first_two("kinds", range(4))],
+    H(fire_order, shards=lambda tier: [(c,) for c in _first_two("kinds", range(4)) if c != _BOTH_D] +
+      [(_BOTH_D, "kinds[2] == %d" % k) for k in range(4)],      # two Deferreds up front: the largest subtree
       timeout={"quick": 120, "thorough": 1200}),
     H(remove_before, shards=lambda tier: ([("phases[0] == %d" % a,) for a in range(3)] if tier == "quick" else
                                           [(c,) for c in _first_two("phases", range(3))]),
